@@ -184,7 +184,7 @@ public:
 
   const_iterator(const const_iterator& other);
   const_iterator& operator++();
-  const_iterator& operator++(int);
+  const_iterator operator++(int);
   bool operator==(const const_iterator& other) const;
   bool operator!=(const const_iterator& other) const;
   reference operator*() const;
